@@ -276,7 +276,20 @@ func genC11(seed uint64, withSpec bool) *Scenario {
 	}
 	// the victim
 	llVictim := !withSpec && r.Chance(120)
-	if llVictim {
+	if llVictim && r.Chance(250) {
+		// the documented invalid-schema panic raised lazily inside a long-lived validator, which goes on being used: a
+		// fresh validator panics again on documents that reach the broken part and judges the others normally
+		m, inst := brokenRefSchema(g)
+		sc.LL = []*LLValidator{{Kind: "schema", Schema: js(m)}}
+		add(Op{Kind: KLLSchema, LL: 0, Data: js(inst), OrderSeed: orderSeedFor(r), Fault: &Fault{Kind: "invalid-schema"}}, "victim")
+		for i := 0; i < r.Range(1, 4); i++ {
+			d := js(inst)
+			if r.Chance(500) {
+				d = pick(r, []string{`{"a":1}`, `{}`, `[1]`, `{"a":"2020-01-01"}`, `{"b":1}`})
+			}
+			add(Op{Kind: KLLSchema, LL: 0, Data: d, OrderSeed: orderSeedFor(r)}, "suffix")
+		}
+	} else if llVictim {
 		// a long-lived (non-recycling) validator is the victim and goes on being used afterwards
 		if r.Chance(700) {
 			vs := v.schemas[len(v.schemas)-1-r.Intn(nfmt)]
